@@ -15,12 +15,24 @@ RULE = ("Hypothesis draws an invertible A = X diag(lam) X^-1 (real non-symmetric
         "over x0 + K_m(A, r0) (least squares on an orthonormal Krylov basis): (a) cola's residual <= (1+1e-6) min + c eps "
         "|A||x|; (b) <= ||r0||; (c) non-increasing along a chain m = 1..; (d) ~0 once m >= grade; (e) at most m products "
         "(+1 for r0) counted by a wrapper; also via inv(A, GMRES(...)) @ b. Non-trivial: m < grade (truncated), breakdown, "
-        "multi-column, or complex.")
+        "multi-column, or complex. Complex operators also get real right-hand sides with x0 omitted. Sub-check spread: a "
+        "normal operator with two eigenvalues 1e-2..1e-8 below the rest and columns [combination of large eigenvectors | "
+        "eigenvector, eigenvectors of the small eigenvalues]: every eigenvector column has grade 1 and must be solved in one "
+        "step whatever the other columns look like, no column may end above its initial residual.")
 ASSUMPTIONS = [
     "residuals compared at 1e-6 relative plus 1e3*eps*cond(X)*(|A||x|+|b|) plus 1e-6*|r0| (residuals below 1e-6 |r0| count as zero: iterations continued past a breakdown with tol near rounding level leave ~1e-9..1e-7 |r0|); matrices have cond(X) <= ~5 and |lam| in [0.5, 4]",
     "bulk payloads from numpy.default_rng(seed) with the seed a Hypothesis draw",
 ]
-SUBS = ["minimal", "minimal", "chain", "grade", "via_inv", "zero_residual"]
+AVOID = set()
+
+
+def configure(tier, opts):
+    from cvh import treeprop as TP
+    AVOID.clear()
+    AVOID.update(TP.load_avoid(ID, opts))
+
+
+SUBS = ["minimal", "minimal", "chain", "grade", "via_inv", "zero_residual", "spread"]
 
 
 @st.composite
@@ -38,6 +50,19 @@ def cases(draw, tier):
     if sub == "grade":
         case["rhs"] = "grade"
         case["m"] = draw(st.integers(g, n + 5))
+    if sub == "spread":
+        # columns living on very different scales of the spectrum: a generic column next to eigenvectors of eigenvalues
+        # 10^-small_exp times smaller than the rest (each column is its own problem)
+        case["n"] = n = max(n, 3)
+        case["nrhs"] = draw(st.integers(2, 3))
+        case["small_exp"] = draw(st.integers(2, 8))
+        case["m"] = draw(st.integers(1, n + 3))
+        case["cplx"] = draw(st.booleans())
+        case["x0"] = draw(st.sampled_from(["zero", "none"]))
+        case["first"] = draw(st.sampled_from(["span", "span", "eig"] + ([] if "illcond_generic" in AVOID else ["generic"])))
+        case["tol_exp"] = draw(st.sampled_from([-8, -6, -4]))
+    # a real right-hand side (and guess) for a complex operator
+    case["rrhs"] = kind == "complex" and draw(st.integers(1, 3)) == 1
     return case
 
 
@@ -102,7 +127,9 @@ def build(case):
         X0 = rng.standard_normal((n, k)) + (1j * rng.standard_normal((n, k)) if cplx else 0)
     else:
         X0 = np.zeros((n, k), dtype=B.dtype)
-    if np.iscomplexobj(A):
+    if np.iscomplexobj(A) and case.get("rrhs") and case["rhs"] == "generic":
+        B, X0 = np.ascontiguousarray(B.real), np.ascontiguousarray(X0.real)
+    elif np.iscomplexobj(A):
         B, X0 = B.astype(np.complex128), X0.astype(np.complex128)
     elif case.get("crhs") and case["rhs"] == "generic":  # complex right-hand side (and guess) for a real operator
         B = B + 1j * rng.standard_normal(B.shape)
@@ -110,6 +137,27 @@ def build(case):
     if case["nrhs"] == 0:
         B, X0 = B[:, 0], X0[:, 0]
     return A, B, X0, float(np.linalg.cond(X))
+
+
+def build_spread(case):
+    """normal A = Q diag(lam) Q^H with two eigenvalues 10^-small_exp below the others; column 0 generic or an
+    eigenvector of a large eigenvalue, the other columns eigenvectors of the small eigenvalues."""
+    n, seed, cplx = case["n"], case["seed"], case["cplx"]
+    rng = np.random.default_rng(seed)
+    lam = (50.0 + 150.0 * rng.random(n)) * np.where(rng.random(n) < 0.8, 1, -1)
+    lam[:2] = 10.0 ** -case["small_exp"] * np.array([3.0, -1.0])
+    Q = KR.rand_unitary(n, seed, cplx)
+    A = (Q * lam) @ Q.conj().T
+    k = case["nrhs"]
+    B = np.zeros((n, k), dtype=A.dtype)
+    w = rng.standard_normal(n) + (1j * rng.standard_normal(n) if cplx else 0)
+    if case["first"] == "span":  # a combination of the eigenvectors of the large eigenvalues only
+        w[:2] = 0
+    B[:, 0] = Q[:, 2] * 2.0 if case["first"] == "eig" else Q @ w
+    for j in range(1, k):
+        B[:, j] = Q[:, j - 1] * (0.5 + rng.random())
+    eig_cols = list(range(1, k)) + ([0] if case["first"] == "eig" else [])
+    return A, B, np.zeros_like(B), eig_cols
 
 
 def run(A, B, X0, m, tol, x0_none=False):
@@ -123,9 +171,35 @@ def cols(B):
     return [B] if B.ndim == 1 else [B[:, j] for j in range(B.shape[1])]
 
 
+def check_spread(case, out):
+    A, B, X0, eig_cols = build_spread(case)
+    n, m, tol = case["n"], case["m"], 10.0 ** case["tol_exp"]
+    out.label("sub:spread", "small:1e-%d" % case["small_exp"], "first:" + case["first"], "complex" if case["cplx"] else "real")
+    out.nontrivial = True
+    site = "gmres:multi:spread:" + case["first"]
+    try:
+        x, info, op = run(A, B, X0, m, tol, case["x0"] == "none")
+    except Exception as e:
+        out.fail("spread", site, oracle.exc_man(e), e)
+        return
+    eps = np.finfo(np.float64).eps
+    for j in range(B.shape[1]):
+        bj, xj = B[:, j], x[:, j]
+        r, r0 = np.linalg.norm(bj - A @ xj), np.linalg.norm(bj)
+        if not np.all(np.isfinite(xj)):
+            out.fail("spread", site, "nonfinite", f"col {j}")
+        elif r > r0 * (1 + 1e-9) + 1e3 * eps * (np.linalg.norm(A, 2) * np.linalg.norm(xj) + r0):
+            out.fail("spread", site, "worse_than_x0", f"col {j}: |r|={r:.3e} > |r0|={r0:.3e}")
+        elif j in eig_cols and r > (1e-6 + 10 * tol) * r0 + 1e3 * eps * (np.linalg.norm(A, 2) * np.linalg.norm(xj) + r0):
+            # an eigenvector right-hand side has grade 1: one step solves it, whatever the scale of its eigenvalue
+            out.fail("spread", site, "nonzero_at_grade", f"col {j} (eigenvector, m={m}): |r|/|r0| = {r / r0:.3e}")
+
+
 def check(case, out):
     import cola
     sub = case["sub"]
+    if sub == "spread":
+        return check_spread(case, out)
     A, B, X0, condx = build(case)
     n, m = case["n"], case["m"]
     tol = 10.0 ** case["tol_exp"]
